@@ -47,3 +47,47 @@ Print Assumptions C14_len_counts_code_points.
 Print Assumptions C14_pos_is_prefix_width.
 Print Assumptions C14_slice_by_code_points.
 Print Assumptions C14_repr_eval_roundtrip.
+
+(* Searching (Model/StrSearch.v): find / startswith with [start[, end]] windows / `in`, computed by
+   py/string.go over the UTF-8 storage with byte-level strings.Index / HasPrefix, equal Python's
+   rule over code points -- for all strings of scalar values and all integer bounds: UTF-8 is
+   prefix-free and self-synchronising, so no match starts inside a character, and the reported
+   position is a code-point index.  cp_find's `index_from` is the least occurrence in the window. *)
+From Coq Require Import ZArith.
+From GP Require Model.StrSearch Proofs.StrSearch.
+Theorem C14_find_by_code_points : forall s sub beg end_, Forall scalar s -> Forall scalar sub ->
+  Model.StrSearch.find_model (encode s) (encode sub) beg end_ = Model.StrSearch.cp_find s sub beg end_.
+Proof. exact Proofs.StrSearch.find_encode. Qed.
+
+Theorem C14_find_is_least_occurrence : forall sub l i, Model.StrSearch.index_from sub l 0 = Some i ->
+  (i <= length l)%nat /\ Model.StrSearch.is_prefix sub (skipn i l) = true /\
+  forall j, (j < i)%nat -> Model.StrSearch.is_prefix sub (skipn j l) = false.
+Proof. exact Proofs.StrSearch.index_from_least. Qed.
+
+Theorem C14_find_none_means_absent : forall sub l, Model.StrSearch.index_from sub l 0 = None ->
+  forall j, (j <= length l)%nat -> Model.StrSearch.is_prefix sub (skipn j l) = false.
+Proof. exact Proofs.StrSearch.index_from_none. Qed.
+
+Theorem C14_startswith_by_code_points : forall s sub beg end_, Forall scalar s -> Forall scalar sub ->
+  Model.StrSearch.startswith_model (encode s) (encode sub) beg end_ = Model.StrSearch.cp_startswith s sub beg end_.
+Proof. exact Proofs.StrSearch.startswith_encode. Qed.
+
+Theorem C14_contains_by_code_points : forall s sub, Forall scalar s -> Forall scalar sub ->
+  (match Model.StrSearch.index_from (encode sub) (encode s) 0 with Some _ => true | None => false end) =
+  (match Model.StrSearch.index_from sub s 0 with Some _ => true | None => false end).
+Proof. exact Proofs.StrSearch.contains_encode. Qed.
+
+Example C14_find_nonvacuous :
+  let s := [97; 233; 8364; 128512; 233; 98]%N in
+  Model.StrSearch.find_model (encode s) (encode [233]%N) 2%Z 100%Z = 4%Z /\
+  Model.StrSearch.find_model (encode s) (encode [233]%N) (-5)%Z (-2)%Z = 1%Z /\
+  Model.StrSearch.find_model (encode s) (encode [8364; 128512]%N) 0%Z 3%Z = (-1)%Z /\
+  Model.StrSearch.count_model (encode s) (encode [233]%N) 0%Z 6%Z = 2%Z /\
+  Model.StrSearch.startswith_model (encode s) (encode [128512; 233]%N) 3%Z (-1)%Z = true.
+Proof. vm_compute. repeat split; reflexivity. Qed.
+
+Print Assumptions C14_find_by_code_points.
+Print Assumptions C14_find_is_least_occurrence.
+Print Assumptions C14_find_none_means_absent.
+Print Assumptions C14_startswith_by_code_points.
+Print Assumptions C14_contains_by_code_points.
